@@ -193,6 +193,8 @@ impl Constraints {
     pub fn random_angles(&self) -> Joints {
         fn random_angle(from: f64, to: f64) -> f64 {
             let mut rng = rand::thread_rng();
+            #[cfg(rs_opw_verif)]
+            let mut rng = crate::verif_hooks::ScriptedRng::new(rng);
             let random_angle = if from < to {
                 // Direct generation when `from` is less than `to`
                 from + rng.gen_range(0.0..(to - from))
